@@ -253,12 +253,11 @@ func splitNode[T any](n *node[T], pos int) (*node[T], error) {
 	if p == nil {
 		panic("节点必须要有一个有效的父节点，才能进行拆分")
 	}
-	p.children = removeNodes(p.children, n.segment.Value) // 先从父节点中删除老的 n
-
 	segs, err := n.segment.Split(n.root.interceptors, pos)
-	if err != nil {
+	if err != nil { // 出错时不应该对树作任何修改
 		return nil, err
 	}
+	p.children = removeNodes(p.children, n.segment.Value) // 从父节点中删除老的 n
 	ret := p.newChild(segs[0])
 	// n 本身作为后一段保留下来：OPTIONS 和 405 的处理函数是通过 n 生成的，
 	// 它们引用的节点对象必须始终是保存这些处理函数的节点。
